@@ -152,14 +152,10 @@ func (q *Query) Clone() (*Query, error) {
 		if cn, ok := qlNode.(*influxql.Call); ok {
 			if cn.Name == "time" {
 				if dln, ok := cn.Args[0].(*influxql.DurationLiteral); ok {
-					n.groupByTimeDL = &influxql.DurationLiteral{
-						Val: dln.Val,
-					}
+					n.groupByTimeDL = dln
 				}
 				if don, ok := cn.Args[1].(*influxql.DurationLiteral); ok {
-					n.groupByOffsetDL = &influxql.DurationLiteral{
-						Val: don.Val,
-					}
+					n.groupByOffsetDL = don
 				}
 			}
 		}
